@@ -56,7 +56,7 @@ func (r *sessRoles) isStoreCall(in ssa.Instruction, names ...string) (string, bo
 		return "", false
 	}
 	for _, n := range names {
-		if cc.Method.Name() == n {
+		if cn(cc.Method) == n {
 			return n, true
 		}
 	}
@@ -213,7 +213,7 @@ func c02GuardedOps(p *Prog) map[*ssa.Function][]GuardedOp {
 			}
 		}
 		for _, cl := range r.storeCalls(fn, "SaveMessageAndIncrNextSenderMsgSeqNum", "IncrNextSenderMsgSeqNum") {
-			ops[fn] = append(ops[fn], GuardedOp{cl, sendMu, "store." + cl.Common().Method.Name()})
+			ops[fn] = append(ops[fn], GuardedOp{cl, sendMu, "store." + cn(cl.Common().Method)})
 		}
 		ForEachInstr(fn, func(in ssa.Instruction) {
 			if st, ok := in.(*ssa.Store); ok && fieldAddrOf(st.Addr, r.fToSend) != nil {
@@ -625,7 +625,7 @@ func c02R4(c *Ctx) {
 			for _, a := range args[1:] {
 				o := p.Origin(a)
 				desc = o.String()
-				if o.Kind == "index" && isFieldOrg(o.Base, r.fToSend) && p.nonNegative(o.Y, 0) && o.Y.Kind == "binop" {
+				if o.Kind == "index" && isFieldOrg(o.Base, r.fToSend) && p.nonNegative(o.Y, 0) && isAscendingIndex(o.Y) {
 					ok = true
 				}
 				break
@@ -786,4 +786,28 @@ func c02R6(c *Ctx) {
 		c.Check(len(bad) == 0, FuncName(root), p.Pos(root.Pos()), "queue-only", fmt.Sprintf("%d functions statically reachable: none sends on the connection channel or reads the session state", len(reach)),
 			"the application-side send API reaches: "+strings.Join(bad, "; ")+" — first-time transmission must happen only where the queue is flushed on the session goroutine")
 	}
+}
+
+// isAscendingIndex: the index of an ascending loop from 0 — the rotated range form (φ{-1|…}+1)
+// or the classic i := 0; …; i++ form φ{0 | (…+1)}.
+func isAscendingIndex(o *Org) bool {
+	if o == nil {
+		return false
+	}
+	if o.Kind == "binop" && o.Op == token.ADD && o.Y.IsConstInt(1) {
+		return true
+	}
+	if o.Kind == "phi" && len(o.Alts) == 2 {
+		zero, inc := false, false
+		for _, a := range o.Alts {
+			if a.IsConstInt(0) {
+				zero = true
+			}
+			if a.Kind == "binop" && a.Op == token.ADD && a.Y.IsConstInt(1) {
+				inc = true
+			}
+		}
+		return zero && inc
+	}
+	return false
 }
